@@ -32,6 +32,8 @@ def check(ix, rep):
     # 3. construction and update visitors are exhaustive
     cells = exh.exh_monitor(ix, rep, on)
     rep.floor('dispatch cells of the online construction visitor', cells, 39)
+    nss = exh.check_store_sites(ix, rep, on)
+    rep.floor('stores into the operator table', nss, 28)
     exh.update_visitor_leaves(ix, rep, on)
     # 2. operator summaries agree with the offline handlers (same init, same step => equal at every prefix length)
     offsum, _ = c01.opsum_offline_discrete(ix, _Quiet(rep), off)
